@@ -87,6 +87,22 @@ CHECKS = {
             "independently computed box-truncation leak of the other coordinates added to the tolerance.",
             "Rates are those verified by C01; a_decl is read from the model after set_representation (the "
             "conversions on the untruncated measure are C10's subject)."),
+    "C03": ("3/C03",
+            "Hypothesis-generated coupled chains over 1..4 levels; reference model = fresh level-(l-1) chain on a "
+            "pre-refinement copy of the grid; coupling kernel measured black-box with scripted uniforms; "
+            "conditional-law reference kernel for copulas",
+            "Exploration: at every level of generated 1-d couplings (all six sampling methods, every grid "
+            "constructor) the identity sum_k r_f(k) P(k->y) = r_c(y) is checked for every coarse state against a "
+            "fresh level-(l-1) chain, the mass sent to 'no coarse jump' against quadrature, the kernel is "
+            "re-measured through coupling_state with scripted uniforms, even increments must be copied and odd "
+            "ones moved to an adjacent coarse state, and the coarse diffusion coefficient / drift must be the "
+            "level-(l-1) ones driven by the same scripted Brownian increment. For copula couplings (d=2,3) every "
+            "fine state's kernel is measured by bisection on the coupling uniform and compared with the "
+            "conditional law of the coarse cell given the fine cell (rows labelled all-even / all-odd / mixed "
+            "parity), and the telescoping identity is checked against a fresh level-0 chain. CouplingSDE: coarse "
+            "and fine driver drifts and epsilon = h^beta.",
+            "Rates are those verified by C01; copula couplings restricted to finite-variation margins and small "
+            "level-0 grids (<= 49 states in 2-d, 125 in 3-d), one refinement."),
 }
 
 NOT_YET = "check not built yet in this session; will be claimed when its module exists"
